@@ -530,6 +530,8 @@ def run(chk):
                 'error and the kind of error).  A case is one sequence (distinct by its texts + options), non-trivial '
                 'when it has a graph with metadata or at least two graphs.')
     chk.require_theorems('Properties.C09', THEOREMS)
+    from harness import serialise_theorems
+    chk.require_theorems('Properties.C09b', serialise_theorems.THEOREMS_C09)   # composition with the end-to-end theorems
     common.use_repo()
     rng = chk.rng
     quick = chk.tier == 'quick'
